@@ -100,6 +100,9 @@ func RunCheck(id, tier, overlayPath, repo string) int {
 				runSafely(pr.Run, armProg, ra, "")
 				bad := 0
 				for _, o := range ra.Obls {
+					if o.Status == chk.Violated && chk.IsKnown(id, o.Key) {
+						continue // the same known finding as on amd64
+					}
 					if o.Status == chk.Violated || o.Status == chk.Undecided {
 						bad++
 						x := r.Rule("ARM", "loader", "every rule is also decided for GOARCH=arm", 0)
@@ -290,4 +293,34 @@ func Explain(path string) int {
 	}
 	fmt.Println("re-deciding on the current tree:")
 	return RunCheck(v.Property, "quick", "", "")
+}
+
+// Sweep loads the tree once and decides every property's quick rules against it. It is a
+// development aid for the seeded-change matrix (evidence goes to a scratch MLB_OUT, never /verif).
+func Sweep(repo string) int {
+	if repo != "" {
+		os.Setenv("MLB_REPO", repo)
+	}
+	if os.Getenv("MLB_OUT") == "" {
+		d, _ := os.MkdirTemp("", "mlbsweep")
+		os.Setenv("MLB_OUT", d)
+		defer os.RemoveAll(d)
+	}
+	prog, err := chk.Load(chk.LoadOpts{})
+	if err != nil {
+		fmt.Println("LOAD-FAIL", err)
+		return 2
+	}
+	ids := IDs()
+	sort.Strings(ids)
+	rc := 0
+	for _, id := range ids {
+		pr := props[id]
+		r := chk.NewReport(id, "quick", prog)
+		runSafely(pr.Run, prog, r, "")
+		if r.Finish() != 0 {
+			rc = 1
+		}
+	}
+	return rc
 }
